@@ -357,8 +357,10 @@ def run(prog: Program, chk: Check) -> None:
                        "in operators.py",
                        "eta.real / eta.imag are real arrays; coupling_comm is odd and "
                        "coupling_acomm even under exchange of the forward and backward index"]
-    d1(prog, chk)
-    d2(prog, chk)
-    d3(prog, chk)
-    d4(prog, chk)
-    d5(prog, chk)
+    chk.call(d1, prog, chk)
+    chk.call(d2, prog, chk)
+    chk.call(d3, prog, chk)
+    chk.call(d4, prog, chk)
+    chk.call(d5, prog, chk)
+    from rules.c03 import m7
+    chk.call(m7, prog, chk, rule="D6")
